@@ -48,14 +48,27 @@ class Ref:
 
     def __init__(self, name: str, idx: Tuple[Poly, ...] = (), local: bool = False, shape=None, init=None, origin=None):
         self.name = name
-        self.idx = tuple(idx)
+        idx = tuple(idx)
+        while idx and idx[-1] == SLICE:
+            idx = idx[:-1]  # a[k, :] and a[k] (and a[:, :] and a) denote the same elements
+        self.idx = idx
         self.local = local
         self.shape = shape  # tuple of values or None
         self.init = init  # ('zeros'|'ones'|'full'|'copy'|..., value)
         self.origin = origin or name
 
     def index(self, more) -> "Ref":
-        return Ref(self.name, self.idx + tuple(more), self.local, None, self.init, self.origin)
+        more = list(more)
+        idx = []
+        for x in self.idx:
+            if x == SLICE and more:
+                idx.append(more.pop(0))  # numpy basic slicing: a[:, 0][k] is a[k, 0]
+            else:
+                idx.append(x)
+        idx.extend(more)
+        r = Ref(self.name, tuple(idx), self.local, None, self.init, self.origin)
+        r.base = getattr(self, "base", self)
+        return r
 
     def poly(self) -> Poly:
         if self.idx:
@@ -78,10 +91,19 @@ class ShapeOf:
 
     def get(self, k: int):
         r = self.ref
+        if r.idx and all(x == SLICE for x in r.idx):
+            r = Ref(r.name, (), r.local, getattr(getattr(r, "base", None), "shape", None), r.init, r.origin)
+            for a in ("shape_like", "like"):
+                if hasattr(getattr(self.ref, "base", None), a):
+                    setattr(r, a, getattr(self.ref.base, a))
         if r.shape is not None and not r.idx:
             if k < len(r.shape):
                 return r.shape[k]
             return TOP
+        if not r.idx and getattr(r, "shape_like", None) is not None:
+            return ShapeOf(r.shape_like).get(k)
+        if not r.idx and isinstance(getattr(r, "like", None), Ref):
+            return ShapeOf(r.like).get(k)
         base = r.poly()
         return Poly.fn("shape", base, Poly.const(k)) if r.idx else Poly.sym(f"{r.name}.shape[{k}]")
 
@@ -241,8 +263,9 @@ class KEval:
     def block(self, body, env, S, f, guards, loops, depth) -> bool:
         """returns True if the block always terminates abruptly (return / raise / continue / break)"""
         for st in body:
-            if self.stmt(st, env, S, f, guards, loops, depth):
-                return True
+            r = self.stmt(st, env, S, f, guards, loops, depth)
+            if r:
+                return r
         return False
 
     def stmt(self, st, env, S, f, guards, loops, depth) -> bool:
@@ -277,30 +300,31 @@ class KEval:
             t1 = self.block(st.body, e1, S, f, guards + (c,), loops, depth)
             t2 = self.block(st.orelse, e2, S, f, guards + (c.negate(),), loops, depth)
             if t1 and t2:
-                return True
+                return "raise" if (t1 == "raise" and t2 == "raise") else "exit"
             if t1:
                 env.clear(); env.update(e2)
-                env.setdefault("#path", ())
-                env["#path"] = env["#path"] + (c.negate(),)
+                pc = c.negate(); pc.path = t1
+                env["#path"] = env.get("#path", ()) + (pc,)
             elif t2:
                 env.clear(); env.update(e1)
-                env["#path"] = env.get("#path", ()) + (c,)
+                pc = Cond(c.kind, *c.args, node=c.node); pc.path = t2
+                env["#path"] = env.get("#path", ()) + (pc,)
             else:
                 self.join_into(env, e1, e2, c)
             return False
         if isinstance(st, ast.Return):
             v = self.ev(st.value, env, S, f, guards, loops, depth) if st.value is not None else Const(None)
             S.returns.append((v, guards + tuple(env.get("#path", ())), st))
-            return True
+            return "exit"
         if isinstance(st, ast.Raise):
             name = "?"
             if st.exc is not None:
                 e = st.exc.func if isinstance(st.exc, ast.Call) else st.exc
                 name = unparse(e)
             S.raises.append((name, guards + tuple(env.get("#path", ())), st))
-            return True
+            return "raise"
         if isinstance(st, (ast.Continue, ast.Break)):
-            return True
+            return "exit"
         if isinstance(st, ast.Expr):
             self.ev(st.value, env, S, f, guards, loops, depth)
             return False
@@ -322,7 +346,11 @@ class KEval:
         return False
 
     def _hint(self, t):
-        return t.id if isinstance(t, ast.Name) else None
+        if isinstance(t, ast.Name):
+            return t.id
+        if isinstance(t, ast.Attribute) and isinstance(t.value, ast.Name):
+            return t.value.id + "." + t.attr
+        return None
 
     def havoc(self, body, env):
         """names (re)assigned in a loop body and live at loop entry are loop-carried: forget their value."""
@@ -397,6 +425,7 @@ class KEval:
             lp = Loop(name, TOP, TOP, TOP, st, "iter")
             lp.seq = seq
             self.bind_target(st.target, self.element_of(seq, Poly.sym(name + "@")), env)
+        path0 = env.get("#path", ())
         S.loops.append(lp)
         lp.depth = len(loops)
         lp.outer = loops
@@ -404,7 +433,10 @@ class KEval:
         self.block(st.body, e2, S, f, guards, loops + (lp,), depth)
         if st.orelse:
             self.block(st.orelse, env, S, f, guards, loops, depth)
-        env.pop("#path", None)
+        if path0:
+            env["#path"] = path0  # `continue`-style path conditions end with the loop body
+        else:
+            env.pop("#path", None)
         return False
 
     def length_of(self, seq):
@@ -438,7 +470,7 @@ class KEval:
         path = tuple(env.get("#path", ()))
         if isinstance(t, ast.Name):
             if op == "=":
-                if isinstance(v, Ref) and v.local and v.name.startswith("<alloc>"):
+                if isinstance(v, Ref) and v.local and v.name.startswith("<alloc>") and not v.idx:
                     v.name = self.fresh(t.id) if any(s.arr == t.id for s in S.stores) else t.id
                     v.origin = t.id
                 if isinstance(v, Poly):
